@@ -189,6 +189,8 @@ def check_markdown(doc):
             return [("C07:ZeroDivisionError:zero-denominator", "markdown %r" % doc[:200])]
         if name == "AttributeError" and re.search(r"!\[[^\]]*\{[^}]*\}[^\]]*\]\(", doc):
             return [("C07:AttributeError:brace-expression-in-image-alt-text", "markdown %r" % doc[:200])]
+        if name == "ValueError" and re.search(r"[0-9]{4301,}", doc):
+            return [("C07:ValueError:integer-literal-beyond-interpreter-digit-limit", "markdown %r..." % doc[:60])]
         try:
             import marko
             marko.Markdown()(doc)
@@ -244,7 +246,7 @@ def check_promptness():
 CORPUS = [["{}"], ["2 {}"], ["mix(flour, salt {})"], ["{} = boil(water)\nserve({})"], ["fry('')"], ["a {}{} b"], ["1" * 400 + " spam\nfry(1 spam)"], ["1" * 400 + " g spam\nfry(" + "1" * 397 + ".0 kg spam)"], ["1" * 4301 + " spam"],
           ["1/0 x"], ["2 1/0 kg x"], ["{1/0} x"], ["x {a 3/0 b}"], [" ".join(["'a'"] * 80)], ["f(" * 25 + "x" + ")" * 25], ["9" * 310 + " x"],
           [""], ["\n"], ["x ="], ["a = b = c"], ["1/ spam"], ["foo, foo = spam"], ["50% x"], ["x\nx = 1\n rest of y"]]
-MD_CORPUS = ["```recipe\r\r\nx = 1 egg\nx = 2 eggs\n```\n", "```recipe\x0c\nx = 1 egg\nx = 2 eggs\n```\n", "    x = 1 egg\n\r\r\n    x = 2 eggs\n",
+MD_CORPUS = ["x {" + "9" * 309 + ".} y", "x {" + "1" * 4301 + "} y", "# T\n\n    " + "9" * 309 + ". g x\n", "```recipe\r\r\nx = 1 egg\nx = 2 eggs\n```\n", "```recipe\x0c\nx = 1 egg\nx = 2 eggs\n```\n", "    x = 1 egg\n\r\r\n    x = 2 eggs\n",
              "  ```recipe\n  x = 1 egg\n \x0c\n  x = 2 eggs\n  ```\n", "*\rx\n", "{1/0}", "![{2} eggs](x.png)", "# T\n\n    1/0 x\n", "# Title for 2\n\n    2 eggs\n", "```recipe\nx = \n```\n", "text {3 1/2} more {x\\}}"]
 
 
